@@ -88,6 +88,15 @@ def gen_histories(ctx, quick):
                 busy = 1 if r.random() < 0.1 else 0
                 lines.append(f"tt ins {hex(key)} {f} {t} {pr} {sc} {ty} {ply} {dp} {ev} {busy}")
                 meta.append(("ins", key, f | (t << 6) | (pr << 12), sc, ty, ply, max(dp, 0), ev, busy))
+            elif x < 0.58:
+                # the search marks a hit as being searched (setBusy re-inserts the record at the current ply), then somebody reads it
+                ply = r.randrange(0, 40)
+                lines.append(f"tt busy {hex(key)} {ply}"); meta.append(("busy", key, ply))
+                ply = r.randrange(0, 40)
+                lines.append(f"tt probe {hex(key)} {ply}"); meta.append(("probe", key, ply))
+                if r.random() < 0.3:      # a key nobody stored anything for: the probed key with one of the contempt hashes applied
+                    k2 = key ^ contempt_hash(r.choice([17, -17, 50, -1]))
+                    lines.append(f"tt probe {hex(k2)} 0"); meta.append(("probe", k2, 0))
             elif x < 0.85:
                 ply = r.randrange(0, 40)
                 lines.append(f"tt probe {hex(key)} {ply}"); meta.append(("probe", key, ply))
@@ -226,6 +235,17 @@ def run(ctx):
     lines, meta = gen_kernels(ctx, quick)
     run_block(ctx, "entry-kernels", lines, meta)
     lines, meta, sessions = gen_histories(ctx, quick)
+    # corpus session first: the repaired setBusy defect (with a non-zero contempt the pinned code stored the record a second
+    # time under key ^ contemptHash, so a probe for a key nobody stored anything for hit)
+    K = 0x1234567800000100
+    k2 = K ^ contempt_hash(17)
+    pre = [("tt new 65536", ("new", 65536)), ("tt contempt 17", ("contempt", 17)),
+           (f"tt ins {hex(K)} 12 28 0 55 1 0 9 33 0", ("ins", K, 12 | (28 << 6), 55, 1, 0, 9, 33, 0)),
+           (f"tt probe {hex(k2)} 0", ("probe", k2, 0)), (f"tt busy {hex(K)} 3", ("busy", K, 3)),
+           (f"tt probe {hex(k2)} 0", ("probe", k2, 0)), (f"tt probe {hex(K)} 0", ("probe", K, 0))]
+    sessions = [(0, len(pre))] + [(a + len(pre), b + len(pre)) for a, b in sessions]
+    lines = [l for l, _ in pre] + lines
+    meta = [m for _, m in pre] + meta
     run_block(ctx, "table-histories", lines, meta, sessions)
     # multi-thread hammer (support for the memory-model abstraction; implementation only)
     for variant in (["plain"] if quick else ["plain", "asan", "tsan"]):
